@@ -27,9 +27,9 @@ EXPLANATION = ('Theorems in Props/C20.lean: for plain-word vocabularies the gene
 ASSUMPTIONS = ['the Lean theorems cover plain-word vocabularies; names containing a dot (ld.w) are covered by the correspondence only',
                'TextMate/Oniguruma and Sublime regex semantics agree with Python re on the generated fragment']
 MN_POOL = ['ld', 'ldx', 'ld2', 'l', 'add', 'addc', 'sub', 'b', 'mov', 'mv', 'jmp', 'j', 'sta', 'st', 'inc', 'x', 'nop', 'ret', 'subb',
-           'ld.w', 'st.b', 'mov.l', 'ld.b']
-MAC_POOL = ['push2', 'mac', 'ld16', 'addw', 'm', 'retz', 'mac.w']
-REG_POOL = ['a', 'b2', 'ab', 'sp', 'hl', 'h', 'r0', 'r10', 'r1', 'ix']
+           'ld.w', 'st.b', 'mov.l', 'ld.b', '_brk', 'inc_', 'ld_x']
+MAC_POOL = ['push2', 'mac', 'ld16', 'addw', 'm', 'retz', 'mac.w', '_save', 'clr_']
+REG_POOL = ['a', 'b2', 'ab', 'sp', 'hl', 'h', 'r0', 'r10', 'r1', 'ix', 'r_', '_t']
 PRE_POOL = ['PK_A', 'pk_a', 'BUF', 'BUFFER', 'ZN_IO', 'IO', 'K1']
 COMPILER = ['org', 'memzone', 'align']
 BYTECODE = ['fill', 'zero', 'zerountil', 'byte', '2byte', '4byte', '8byte', 'cstr', 'asciiz']
@@ -80,7 +80,8 @@ def probes(case):
     r = random.Random(case['seed'])
     out = []
     for w in case['mns'] + case['macs'] + case['regs']:
-        out += [w, w.upper(), w.capitalize(), w + 'x', 'x' + w, w + '2', w[:-1] if len(w) > 1 else w + w, w + '_', '_' + w]
+        out += [w, w.upper(), w.capitalize(), w + 'x', 'x' + w, w + '2', w[:-1] if len(w) > 1 else w + w, w + '_', '_' + w,
+                'do' + w, w + 'all', '9' + w]
         if '.' in w:
             out += [w.replace('.', 'x'), w.replace('.', '_'), w.replace('.', ''), w.replace('.', '0'), w.upper().replace('.', 'Q')]
     for w in case['pre']:
